@@ -565,6 +565,13 @@ func (ev *evaluator) node(e *env, n *Node) {
 			simple("i", e.str(n.E))
 		case "box":
 			simple("b", e.str(n.E))
+		case "capture":
+			// the block, rendered in the caller's scope, between the component's own tags
+			ev.matom(tagCanon("u", nil), true, false)
+			ev.mark(evBarrier)
+			ev.list(e, n.Kids, true)
+			ev.mark(evBarrier)
+			ev.matom("\x00</u>\x01", false, true)
 		case "flush":
 			// the block is rendered where the call stands, in the caller's scope ({ children... }
 			// inside it are the enclosing template's children)
